@@ -87,6 +87,8 @@ fn convert_dbd_to_yaml(
         } else {
             eprintln!("No schemas found matching the specified criteria.");
         }
+        // Nothing was written: report failure instead of exit status 0
+        anyhow::bail!("No schemas were generated");
     } else {
         println!("Generating YAML schemas...");
         println!();
